@@ -129,6 +129,32 @@ def structured_outputs():
     for w in range(8):
         targets.append(0xdeadbeef << (32 * w) & ((1 << 255) - 1))
     targets += [P - 1, P - 2, P - 3, 1, 2, 3, 4]
+    # results on the boundaries of the final reduction ("freeze") in radix 2^51 / 2^64: upper limbs all ones with the low limb just below
+    # 2^51-19, with its low 32 bits just below 2^32 (a 32-bit comparison would misjudge it), with low 32 bits zero; every single limb saturated
+    # with the others zero / all ones; p - k for k <= 64.  Each class is a generator of candidates: the first two prime-order members are used.
+    M51 = (1 << 51) - 1
+    classes = []
+    classes.append([P - k for k in range(4, 65)])
+    classes.append([(1 << 255) - (1 << 51) + (x << 32) + lo for x in range(1, 40) for lo in range(0xffffffed, 0x100000000)])
+    classes.append([(1 << 255) - (1 << 51) + (x << 32) for x in range(1, 200)])
+    classes.append([(1 << 255) - (1 << 51) + M51 - 19 - k for k in range(1, 200)])
+    classes.append([(1 << 255) - (1 << 51) + (1 << 31) + k for k in range(0, 200)])
+    classes.append([(1 << 255) - (1 << 64) + k for k in range(0, 200)])
+    classes.append([(1 << 255) - (1 << 64) + (1 << 64) - 19 - (1 << 13) * k - 1 for k in range(0, 200)])
+    for i in range(5):
+        classes.append([(M51 << (51 * i)) + k * (1 << ((51 * i + 60) % 250)) for k in range(0, 60)])
+        classes.append([(((1 << 255) - 1) ^ (M51 << (51 * i))) - 19 - k - (k << 200 if i == 0 else 0) for k in range(1, 60)])
+    class_targets = []
+    for cl in classes:
+        got = 0
+        for t in cl:
+            t %= P
+            if t == 0: continue
+            rhs = (t * t * t + 486662 * t * t + t) % P
+            order = L if pow(rhs, (P - 1) // 2, P) == 1 else L_TWIST
+            if ec.mont_ladder(order - 1, t, 255) != t: continue
+            class_targets.append(t); got += 1
+            if got >= 2: break
     seen_pos = {}
     for t in targets:
         t %= P
@@ -147,6 +173,12 @@ def structured_outputs():
             n = ec.clamp(s)
             pt = ec.mont_ladder(pow(n, -1, order), t, 255)
             out.append((s, le(pt), le(t)))
+    for t in class_targets:
+        rhs = (t * t * t + 486662 * t * t + t) % P
+        order = L if pow(rhs, (P - 1) // 2, P) == 1 else L_TWIST
+        for s in scalars:
+            n = ec.clamp(s)
+            out.append((s, le(ec.mont_ladder(pow(n, -1, order), t, 255)), le(t)))
     return out
 
 
